@@ -31,47 +31,27 @@ def pushNet (d : List (String × List Name)) (k : String) (vs : List Name) : Lis
 
 def constName (tie0 tie1 n : Name) : Name := if n == "1'b0" then tie0 else if n == "1'b1" then tie1 else n
 
-structure Acc where
-  nets : List (String × List Name) := []
-  edges : List (Name × Name) := []
-  bbs : List (Name × BBox) := []
-deriving Inhabited
+/-- one instance statement as the regular expressions deliver it -/
+inductive FInst where
+  | inst (gate inst : String) (nets : List String) (pins : List (String × String))
+      -- `nets` = the comma-split, stripped connection list (used for primitives); `pins` = the named-port pairs found
+deriving Repr, Inhabited
 
-/-- one match of the instance regex -/
-def doInst (bbs : List BBox) (ord : Ord) (tie0 tie1 : Name) (a : Acc) (g : List String) : E Acc :=
-  let gate := g.getD 0 ""
-  let inst := g.getD 1 ""
-  let netStr := g.getD 2 ""
-  if T.primitive.contains gate then
-    let nets := (netStr.splitOn ",").map (fun n => constName tie0 tie1 (strip n))
-    match nets with
-    | [] => .error .indexError
-    | o :: ins => pure { a with nets := pushNet a.nets gate [o], edges := a.edges ++ ins.map (fun i => (i, o)) }
-  else
-    match bbs.find? (fun b => b.name == gate) with
-    | none => .error .valueError
-    | some bb =>
-      let a1 : Acc := { a with nets := pushNet (pushNet a.nets "bb_input" ((ord bb.ins).map (fun p => inst ++ "." ++ p)))
-                                        "bb_output" ((ord bb.outs).map (fun p => inst ++ "." ++ p)) }
-      match Regex.findall (rx 4).1 netStr (rx 4).2 with
-      | none => .error (.other "regex")
-      | some pins =>
-        pins.foldlM (fun (a : Acc) pg =>
-          let pin := pg.getD 0 ""
-          let net := constName tie0 tie1 (pg.getD 1 "")
-          if bb.ins.contains pin then pure { a with edges := a.edges ++ [(net, inst ++ "." ++ pin)] }
-          else if bb.outs.contains pin then
-            pure { a with nets := pushNet a.nets "buf" [net], edges := a.edges ++ [(inst ++ "." ++ pin, net)] }
-          else .error .valueError) a1 >>= fun a2 =>
-        pure { a2 with bbs := (a2.bbs.filter (fun p => p.1 != inst)) ++ [(inst, bb)] }
+/-- everything the regular expressions extract from the text -/
+structure FParsed where
+  name : String
+  inputs : List Name        -- in order of appearance, duplicates removed
+  insts : List FInst
+  assigns : List (Name × String)
+  outputs : List Name
+deriving Repr, Inhabited
 
-/-- `fast_parse_verilog_netlist(netlist, blackboxes)`; `ordIn` enumerates the (plain) set of declared inputs -/
-def parse (netlist : String) (bbs : List BBox) (ord ordIn : Ord) : E Circuit :=
+/-- the `re.search` / `re.findall` passes -/
+def extract (netlist : String) : E FParsed :=
   match Regex.search (rx 0).1 netlist (rx 0).2, Regex.search (rx 1).1 netlist (rx 1).2 with
   | some (some m0), some m1? =>
     let name := (m0.groups.headD none).getD ""
-    let chars := netlist.toList
-    let module0 := chars.drop m0.stop
+    let module0 := netlist.toList.drop m0.stop
     match m1? with
     | none => .error (.other "AttributeError")
     | some m1 =>
@@ -80,27 +60,68 @@ def parse (netlist : String) (bbs : List BBox) (ord ordIn : Ord) : E Circuit :=
       match Regex.findall (rx 2).1 moduleTxt (rx 2).2, Regex.findall (rx 3).1 moduleTxt (rx 3).2,
             Regex.findall (rx 5).1 moduleTxt (rx 5).2, Regex.findall (rx 6).1 moduleTxt (rx 6).2 with
       | some ins, some insts, some assigns, some outs =>
-        let inputs := ordIn (dedup (ins.flatMap (fun g => ((g.getD 1 "").splitOn ",").map strip)))
-        let g0 := addNodes { name := name } inputs "input" none
-        let tie0 := "tie0"
-        let tie1 := "tie1"
-        let g1 := (g0.addNodeAttr tie0 { ty := some "0" }).addNodeAttr tie1 { ty := some "1" }
-        insts.foldlM (doInst bbs ord tie0 tie1) ({} : Acc) >>= fun a =>
-        let a2 := assigns.foldl (fun (a : Acc) g =>
-          let n0 := g.getD 0 ""
-          let n1 := g.getD 1 ""
-          let src := if ["1'b0", "1'h0", "1'd0"].contains n1 then tie0 else if ["1'b1", "1'h1", "1'd1"].contains n1 then tie1 else n1
-          { a with nets := pushNet a.nets "buf" [n0], edges := a.edges ++ [(src, n0)] }) a
-        let g2 := a2.nets.foldl (fun c kv => addNodes c kv.2 kv.1 (some false)) g1
-        let g3 := a2.edges.foldl addEdgeAuto g2
-        (outs.flatMap (fun g => ((g.getD 1 "").splitOn ",").map strip)).foldlM (fun (c : Circuit) o =>
-          if c.has o then pure (c.setOutRaw o true) else .error .keyError) g3 >>= fun g4 =>
-        let g5 := if (g4.fanout tie0).isEmpty then g4.removeNode tie0 else g4
-        let g6 := if (g5.fanout tie1).isEmpty then g5.removeNode tie1 else g5
-        pure { g6 with bbs := a2.bbs }
+        insts.mapM (fun g =>
+          match Regex.findall (rx 4).1 (g.getD 2 "") (rx 4).2 with
+          | none => .error (.other "regex")
+          | some pins => .ok (FInst.inst (g.getD 0 "") (g.getD 1 "") (((g.getD 2 "").splitOn ",").map strip)
+                                (pins.map (fun pg => (pg.getD 0 "", pg.getD 1 ""))))) >>= fun fi =>
+        pure { name := name,
+               inputs := dedup (ins.flatMap (fun g => ((g.getD 1 "").splitOn ",").map strip)),
+               insts := fi,
+               assigns := assigns.map (fun g => (g.getD 0 "", g.getD 1 "")),
+               outputs := outs.flatMap (fun g => ((g.getD 1 "").splitOn ",").map strip) }
       | _, _, _, _ => .error (.other "regex")
   | some none, _ => .error (.other "AttributeError")
   | _, _ => .error (.other "regex")
+
+structure Acc where
+  nets : List (String × List Name) := []
+  edges : List (Name × Name) := []
+  bbs : List (Name × BBox) := []
+deriving Inhabited
+
+/-- the bookkeeping for one instance statement -/
+def doInst (bbs : List BBox) (ord : Ord) (tie0 tie1 : Name) (a : Acc) : FInst → E Acc
+  | .inst gate inst nets0 pins =>
+    if T.primitive.contains gate then
+      match nets0.map (constName tie0 tie1) with
+      | [] => .error .indexError
+      | o :: ins => pure { a with nets := pushNet a.nets gate [o], edges := a.edges ++ ins.map (fun i => (i, o)) }
+    else
+      match bbs.find? (fun b => b.name == gate) with
+      | none => .error .valueError
+      | some bb =>
+        let a1 : Acc := { a with nets := pushNet (pushNet a.nets "bb_input" ((ord bb.ins).map (fun p => inst ++ "." ++ p)))
+                                          "bb_output" ((ord bb.outs).map (fun p => inst ++ "." ++ p)) }
+        pins.foldlM (fun (a : Acc) pg =>
+          let pin := pg.1
+          let net := constName tie0 tie1 pg.2
+          if bb.ins.contains pin then pure { a with edges := a.edges ++ [(net, inst ++ "." ++ pin)] }
+          else if bb.outs.contains pin then
+            pure { a with nets := pushNet a.nets "buf" [net], edges := a.edges ++ [(inst ++ "." ++ pin, net)] }
+          else .error .valueError) a1 >>= fun a2 =>
+        pure { a2 with bbs := (a2.bbs.filter (fun p => p.1 != inst)) ++ [(inst, bb)] }
+
+/-- the graph assembly after extraction; `ordIn` enumerates the (plain) set of declared inputs -/
+def assemble (p : FParsed) (bbs : List BBox) (ord ordIn : Ord) : E Circuit :=
+  let g0 := addNodes { name := p.name } (ordIn p.inputs) "input" none
+  let tie0 := "tie0"
+  let tie1 := "tie1"
+  let g1 := (g0.addNodeAttr tie0 { ty := some "0" }).addNodeAttr tie1 { ty := some "1" }
+  p.insts.foldlM (doInst bbs ord tie0 tie1) ({} : Acc) >>= fun a =>
+  let a2 := p.assigns.foldl (fun (a : Acc) g =>
+    let src := if ["1'b0", "1'h0", "1'd0"].contains g.2 then tie0 else if ["1'b1", "1'h1", "1'd1"].contains g.2 then tie1 else g.2
+    { a with nets := pushNet a.nets "buf" [g.1], edges := a.edges ++ [(src, g.1)] }) a
+  let g2 := a2.nets.foldl (fun c kv => addNodes c kv.2 kv.1 (some false)) g1
+  let g3 := a2.edges.foldl addEdgeAuto g2
+  p.outputs.foldlM (fun (c : Circuit) o => if c.has o then pure (c.setOutRaw o true) else .error .keyError) g3 >>= fun g4 =>
+  let g5 := if (g4.fanout tie0).isEmpty then g4.removeNode tie0 else g4
+  let g6 := if (g5.fanout tie1).isEmpty then g5.removeNode tie1 else g5
+  pure { g6 with bbs := a2.bbs }
+
+/-- `fast_parse_verilog_netlist(netlist, blackboxes)` -/
+def parse (netlist : String) (bbs : List BBox) (ord ordIn : Ord) : E Circuit :=
+  extract netlist >>= fun p => assemble p bbs ord ordIn
 
 end FastVerilog
 end CG
